@@ -492,16 +492,17 @@ func (t *WeightedMerkleTrie) commit(node Node, batcher storage.Batcher, collapse
 		if err != nil {
 			return nil, err
 		}
+		// a node saved at the collapse level is created like any other
+		createdChan <- n.Hash()
+		if !bytes.Equal(prevHash, n.Hash()) {
+			deleteChan <- prevHash
+		}
 		if level == collapseLevel {
 			n.Children = [16]Node{}
 			return &hashNode{
 				hash:   n.Hash(),
 				weight: n.Weight(),
 			}, nil
-		}
-		createdChan <- n.Hash()
-		if !bytes.Equal(prevHash, n.Hash()) {
-			deleteChan <- prevHash
 		}
 		return n, nil
 	case *shortNode:
